@@ -81,7 +81,7 @@ def _isolate_broken_replay_files(env, scratch, timeout):
             return blanked
         if p.returncode == 0:
             return blanked
-        bad = set(re.findall(r"-->\s*%s/([A-Za-z0-9_]+\.rs):" % re.escape(os.path.join(env["VERIF_DIR"], "replays")), out)) - blanked
+        bad = _error_files(out, os.path.join(env["VERIF_DIR"], "replays")) - blanked
         if not bad:
             return blanked  # the crate itself does not build (or the error is elsewhere): nothing to isolate
         blanked |= bad
@@ -97,6 +97,29 @@ def _isolate_broken_replay_files(env, scratch, timeout):
                 shutil.copy(os.path.join(src, f), os.path.join(alt, "replays", f))
         env["VERIF_DIR"] = alt
     return blanked
+
+
+def _error_files(out, replay_dir):
+    """replay files that carry the PRIMARY span of an `error` diagnostic: the first `-->` of each diagnostic that starts
+    with `error`.  Warnings and secondary spans do not count - the "consider importing ..." help of an error located in
+    replays/eyeballs_internal.rs points at the `use` items of the including module in replays/eyeballs.rs, and blanking
+    that file as well takes every public-surface template and stand-in of the unit out of the build."""
+    import re
+    files = set()
+    kind, seen_primary = None, False
+    for ln in out.splitlines():
+        m = re.match(r"(error|warning)(\[[A-Z0-9]+\])?:", ln)
+        if m:
+            kind, seen_primary = m.group(1), False
+            continue
+        if kind == "error" and not seen_primary:
+            m = re.match(r"\s*-->\s*(\S+?):\d+:\d+\s*$", ln)
+            if m:
+                seen_primary = True
+                d, f = os.path.split(m.group(1))
+                if d == replay_dir and re.fullmatch(r"[A-Za-z0-9_]+\.rs", f):
+                    files.add(f)
+    return files
 
 
 def run_for(obligation, scratch, extra_env=None):
